@@ -80,6 +80,19 @@ func Access(id string, write bool) {
 	active.park(Op{ID: id, Write: write})
 }
 
+// AccessAt is Access for a field reached through a method receiver: the location is the field of that object, so two threads
+// conflict only when they hold the same object (pointer receivers; a value receiver is a private copy and never conflicts).
+func AccessAt(id string, obj any, write bool) {
+	if active == nil {
+		return
+	}
+	rv := reflect.ValueOf(obj)
+	if rv.Kind() != reflect.Pointer {
+		return
+	}
+	active.park(Op{ID: fmt.Sprintf("%s@%x", id, rv.Pointer()), Write: write})
+}
+
 // SyncPoint is called by the vsync shim before a synchronisation operation.
 func SyncPoint(id string) {
 	if active == nil {
